@@ -773,8 +773,8 @@ def run(args):
         "reservation part: Spec/AddrRes.lean = my reading of the section DN,DB,DW,DD,DQ,DT (element count, DUP multiplies, packing into address units); "
         "the unit sizes of the segments handed to the spec are those of the targets' documentation (table RT in c10_res.py), the model takes Grans[] from "
         "Generated/ListParams.lean; correspondence: real asl vs Model/AddrRes.lean (DecodeIntelDx transcription of Model/DataExt.lean)",
-        "label part: Spec/AddrLab.lean = my reading of the sections PADDING (the label of the padded line and of the label-only line immediately before it "
-        "point behind the pad byte), MACRO/IRP/IRPN/IRPC/REPT/WHILE (a construct is replaced by its expansion), DC/DS/BYT/FCB/ADR/FDB/DFS/RMB (operands x "
+        "label part: Spec/AddrLab.lean = my reading of the sections PADDING (the label of the padded line points behind the pad byte; so does the label of the "
+        "label-only line immediately before it while it is the most recent label, i.e. when the padded line has no label of its own - tests/t_padding label5..label8), MACRO/IRP/IRPN/IRPC/REPT/WHILE (a construct is replaced by its expansion), DC/DS/BYT/FCB/ADR/FDB/DFS/RMB (operands x "
         "repeat factor x element size; Spec/Data.lean of C09) and Structures; which statements of a target are word-sized objects and the byte order of its "
         "data words are those of the targets' documentation (tables CT/MT in c10_lab.py); the encodings of the 2-byte machine instructions used as objects "
         "and the PADDING default of each target are read from the binary under test (calibration); correspondence: real asl vs Model/AddrLab.lean "
